@@ -1,13 +1,18 @@
-"""Verify functions against their contracts; run in worker processes."""
+"""Verify functions against their contracts.
+
+Stage 1 (pool over functions): symbolic execution of the real function body
+against its contract -> obligations, serialised to SMT-LIB2.
+Stage 2 (pool over obligations): each obligation solved in its own process
+(z3 E-matching, then MBQI for counter-models, then cvc5 on z3-unknowns)."""
 import os
 import sys
 import time
 import traceback
-import z3
+import multiprocessing
 
 from .source import Repo
 from .contract import Registry
-from .engine import Engine, discharge, Obligation
+from .engine import Engine, serialize, solve_text
 from .symexec import FuncExec, Undecided
 from .spec import SpecError
 
@@ -26,26 +31,9 @@ def setup(root=None):
     return _cache[key]
 
 
-def model_summary(ob, limit=40):
-    """Readable fragment of a counter-model: parameters, options, a few heap reads."""
-    if ob.model is None:
-        return {}
-    out = {}
-    m = ob.model
-    for d in m.decls():
-        n = d.name()
-        if n.startswith("p!") or n.startswith("opt!") or n.startswith("cv!"):
-            try:
-                out[n] = str(m[d])
-            except Exception:
-                pass
-        if len(out) >= limit:
-            break
-    return out
-
-
-def verify_function(args):
-    qual, timeout, both, root = args
+def generate(args):
+    """Stage 1: one function -> serialised obligations."""
+    qual, root = args
     t0 = time.time()
     res = {"function": qual, "obligations": [], "undecided": None, "seconds": 0.0, "lineno": None}
     try:
@@ -68,54 +56,69 @@ def verify_function(args):
         fx = FuncExec(eng, qual, c, module, fn, cls)
         obs = fx.run()
         for ob in obs:
-            discharge(eng, ob, timeout_s=timeout, both=both)
+            text, nparts = serialize(eng, ob)
             res["obligations"].append({
-                "name": ob.name, "kind": ob.kind, "label": ob.label, "status": ob.status,
-                "backend": ob.backend, "seconds": round(ob.seconds, 3), "reason": ob.reason,
-                "lineno": ob.lineno, "trace": ob.trace[-12:], "model": model_summary(ob) if ob.status == "failed" else {},
-                "model_text": (str(ob.model)[:6000] if ob.status == "failed" and ob.model is not None else ""),
-            })
+                "name": ob.name, "kind": ob.kind, "label": ob.label, "lineno": ob.lineno,
+                "trace": ob.trace[-12:], "text": text, "nparts": nparts,
+                "parts": [l for l, _f in (ob.parts or [])], "expect_sat": ob.expect_sat})
     except (Undecided, SpecError) as e:
         res["undecided"] = "%s: %s" % (type(e).__name__, e)
-    except Exception as e:
+    except Exception:
         res["undecided"] = "engine error: " + traceback.format_exc()[-1500:]
         res["crash"] = True
-    res["seconds"] = round(time.time() - t0, 3)
+    res["gen_seconds"] = round(time.time() - t0, 3)
     return res
 
 
-def finite_scope_refute(eng, ob, timeout):
-    """`unknown` on the unbounded query: look for a counter-model with few
-    objects (sound for refutation: a model of the negated VC is a model).
-    Implemented by asking z3 with model-based quantifier instantiation."""
-    t0 = time.time()
-    s = z3.Solver()
-    s.set("timeout", int(timeout * 1000))
-    s.set("smt.mbqi", True)
-    s.set("smt.ematching", False)
-    s.add(*eng.axioms())
-    s.add(*ob.pc)
-    s.add(z3.Not(ob.goal))
-    r = s.check()
-    if r == z3.sat:
-        ob.status = "failed"
-        ob.model = s.model()
-        ob.reason = "z3 sat (mbqi)"
-        ob.backend = "z3-mbqi"
-    elif r == z3.unsat:
-        ob.status = "discharged"
-        ob.backend = "z3-mbqi"
-    ob.seconds += time.time() - t0
+def solve(args):
+    text, nparts, timeout, expect_sat, both = args
+    try:
+        return solve_text(text, nparts, timeout, expect_sat=expect_sat, both=both)
+    except Exception:
+        return {"status": "unknown", "backend": "z3", "reason": "solver error: " + traceback.format_exc()[-600:],
+                "model": {}, "model_text": "", "failed_parts": [], "unknown_parts": [], "seconds": 0.0}
 
 
 def verify_many(quals, timeout=10, both=False, root=None, jobs=None):
-    from multiprocessing import Pool
-    jobs = jobs or min(16, max(1, len(quals)))
-    args = [(q, timeout, both, root) for q in quals]
+    jobs = jobs or int(os.environ.get("PYVC_JOBS", "16"))
+    ctx = multiprocessing.get_context("fork")
+    gen_args = [(q, root) for q in quals]
     if jobs == 1 or len(quals) == 1:
-        return [verify_function(a) for a in args]
-    with Pool(jobs) as p:
-        return p.map(verify_function, args, chunksize=1)
+        results = [generate(a) for a in gen_args]
+    else:
+        with ctx.Pool(min(jobs, len(quals))) as p:
+            results = p.map(generate, gen_args, chunksize=1)
+    flat = []
+    for ri, r in enumerate(results):
+        for oi, o in enumerate(r["obligations"]):
+            flat.append((ri, oi, (o["text"], o["nparts"], timeout, o["expect_sat"], both)))
+    # biggest first: better load balance
+    order = sorted(range(len(flat)), key=lambda i: -len(flat[i][2][0]))
+    if flat:
+        if jobs == 1:
+            outs = [solve(flat[i][2]) for i in order]
+        else:
+            with ctx.Pool(min(jobs, len(flat))) as p:
+                outs = p.map(solve, [flat[i][2] for i in order], chunksize=1)
+        for i, out in zip(order, outs):
+            ri, oi, _a = flat[i]
+            o = results[ri]["obligations"][oi]
+            o.pop("text", None)
+            o.update({"status": out["status"], "backend": out["backend"], "seconds": round(out["seconds"], 3),
+                      "reason": out["reason"], "model": out["model"], "model_text": out["model_text"]})
+            parts = o.get("parts") or []
+            fp = [parts[k] for k in out.get("failed_parts", []) if k < len(parts)]
+            up = [parts[k] for k in out.get("unknown_parts", []) if k < len(parts)]
+            if fp or up:
+                o["reason"] += " [conjuncts failed: %s; undecided: %s]" % (",".join(fp) or "-", ",".join(up) or "-")
+                # name the failing conjunct
+                if fp:
+                    o["name"] = o["name"] + "." + fp[0]
+                elif up:
+                    o["name"] = o["name"] + "." + up[0]
+    for r in results:
+        r["seconds"] = round(r.get("gen_seconds", 0) + sum(o.get("seconds", 0) for o in r["obligations"]), 3)
+    return results
 
 
 def main(argv):
@@ -126,6 +129,7 @@ def main(argv):
         if a.startswith("--timeout="):
             timeout = float(a.split("=")[1])
     verbose = "-v" in argv
+    t0 = time.time()
     res = verify_many(quals, timeout=timeout, jobs=1 if "-j1" in argv else None)
     bad = 0
     for r in res:
@@ -135,7 +139,7 @@ def main(argv):
             continue
         n = len(r["obligations"])
         ok = sum(1 for o in r["obligations"] if o["status"] == "discharged")
-        print("%s: %d/%d discharged in %.1fs" % (r["function"], ok, n, r["seconds"]))
+        print("%s: %d/%d discharged (gen %.1fs, solver %.1fs)" % (r["function"], ok, n, r.get("gen_seconds", 0), r["seconds"]))
         for o in r["obligations"]:
             if o["status"] != "discharged" or verbose:
                 print("   %-10s %s  [%s %.2fs] %s" % (o["status"], o["name"], o["backend"], o["seconds"], o["reason"]))
@@ -145,6 +149,7 @@ def main(argv):
                         print("        | " + t)
                     if o["model"]:
                         print("        model: " + json.dumps(o["model"]))
+    print("wall %.1fs" % (time.time() - t0))
     return 1 if bad else 0
 
 
